@@ -22,6 +22,11 @@ pub enum Edit {
     RenameQuoted { line: usize, occ: usize },
     /// the `occ`-th quoted name on `line` gets a non-ASCII character in front (byte offsets shift)
     RenameQuotedUnicode { line: usize, occ: usize },
+    /// a reference renamed to the name of ANOTHER existing definition: `how` = "self" (the name
+    /// of the block the line is in) or "next" (the next definition of the same type as the
+    /// current target, or - when the current value names nothing, e.g. "Ninguna" - as the block
+    /// the line is in). Builds reference cycles and cross links out of valid names.
+    RefRetarget { line: usize, occ: usize, how: String },
     /// the `tok`-th numeric token on `line` is replaced by text
     NumToText { line: usize, tok: usize },
     /// the `tok`-th numeric token on `line` is replaced by an out-of-range value
@@ -73,6 +78,7 @@ impl Edit {
             Edit::BlockRemoved { .. } => "disk.block_removed",
             Edit::RenameQuoted { .. } => "disk.name_renamed",
             Edit::RenameQuotedUnicode { .. } => "disk.name_renamed_nonascii",
+            Edit::RefRetarget { .. } => "disk.reference_retargeted",
             Edit::NumToText { .. } => "disk.number_to_text",
             Edit::NumOor { .. } => "disk.number_out_of_range",
             Edit::ByteFlip { .. } => "disk.byte_flip",
@@ -99,6 +105,7 @@ impl Edit {
             | Edit::BlockRemoved { line }
             | Edit::RenameQuoted { line, .. }
             | Edit::RenameQuotedUnicode { line, .. }
+            | Edit::RefRetarget { line, .. }
             | Edit::NumToText { line, .. }
             | Edit::NumOor { line, .. }
             | Edit::ByteFlip { line, .. }
@@ -516,6 +523,35 @@ pub fn apply(text: &str, e: &Edit) -> Option<String> {
             v[*line] = &newl;
             Some(join(&v))
         }
+        Edit::RefRetarget { line, occ, how } => {
+            let l = get(*line)?;
+            if header_of(l).is_some() {
+                return None;
+            }
+            let spans = quoted_spans(l);
+            let (s_, e_) = *spans.get(*occ)?;
+            let cur = &l[s_..e_];
+            let blocks = scan_blocks(&lines);
+            let own = blocks.iter().filter(|b| b.start < *line && *line <= b.end).last()?;
+            let new_name = if how == "self" {
+                own.name.clone()
+            } else {
+                let ttype = blocks.iter().find(|b| b.name == cur).map(|b| b.btype.clone()).unwrap_or_else(|| own.btype.clone());
+                let same: Vec<&Block> = blocks.iter().filter(|b| b.btype == ttype && !b.name.is_empty()).collect();
+                if same.is_empty() {
+                    return None;
+                }
+                let pos = same.iter().position(|b| b.name == cur).or_else(|| same.iter().position(|b| b.name == own.name)).unwrap_or(0);
+                same[(pos + 1) % same.len()].name.clone()
+            };
+            if new_name.is_empty() || new_name == cur {
+                return None;
+            }
+            let newl = format!("{}{}{}", &l[..s_], new_name, &l[e_..]);
+            let mut v = lines.clone();
+            v[*line] = &newl;
+            Some(join(&v))
+        }
         Edit::RenameQuotedUnicode { line, occ } => {
             let l = get(*line)?;
             let spans = quoted_spans(l);
@@ -852,6 +888,11 @@ pub fn enumerate_c19(file: &CorpusFile, thorough: bool) -> Vec<Variant> {
         for (occ, _) in quoted_spans(l).iter().enumerate() {
             push(Edit::RenameQuoted { line: i, occ });
             push(Edit::RenameQuotedUnicode { line: i, occ });
+            if !li.is_header && header_of(l).is_none() && li.region != "xml" {
+                for how in ["self", "next"] {
+                    push(Edit::RefRetarget { line: i, occ, how: how.to_string() });
+                }
+            }
         }
         for (tok, _) in numeric_spans(l).iter().enumerate() {
             push(Edit::NumToText { line: i, tok });
